@@ -371,6 +371,54 @@ def run(ctx: Any, prog: Program) -> None:
                               'and comes back changed', func=f'BSP.{wname}', text=f'{wname}: no saturation `{U(c)[:40]}`')
     ctx.check('C11.L22', True, bsp, bsp.tree, f'{n22} saturating clamps found in lump writers', func='BSP', text='lump writers examined for saturating clamps')
 
+    # ---- L23: what a reader takes from a shared table is that table's own object ------------------------------------------------------------
+    # cross-lump references are rebuilt by the writers with `find_or_insert(self.<table>)`, whose default key is the object's identity.  A
+    # reader that hands out a *copy* of the table entry (`verts[a].copy()`) breaks the link: on save the copy is not found, is appended as a
+    # new entry, and the table grows with every read/save cycle.
+    ctx.rule('C11.L23', 'readers hand out the entries of identity-keyed shared tables themselves, not copies', floor=3)
+    by_identity: Set[str] = set()
+    for wname, wfn in bsp.methods('BSP').items():
+        for c in ast.walk(wfn):
+            if isinstance(c, ast.Call) and (dotted(c.func) or '').split('.')[-1] in ('find_or_insert', 'find_or_extend') and c.args and (dotted(c.args[0]) or '').startswith('self.'):
+                keyf = c.args[1] if len(c.args) > 1 else next((k.value for k in c.keywords if k.arg == 'key_func'), None)
+                if keyf is None or dotted(keyf) == 'id':
+                    by_identity.add(dotted(c.args[0]).split('.', 1)[1])
+    ctx.shape('C11.L23', len(by_identity) >= 5, bsp, bsp.tree, f'identity-keyed shared tables: {sorted(by_identity)}', func='BSP', text='identity-keyed tables found')
+    for rname, rfn in bsp.methods('BSP').items():
+        if not rname.startswith('_lmp_read'):
+            continue
+        alias23 = {t.id: dotted(a.value).split('.', 1)[1] for a in ast.walk(rfn) if isinstance(a, (ast.Assign, ast.AnnAssign)) and a.value is not None and (dotted(a.value) or '').startswith('self.') and dotted(a.value).split('.', 1)[1] in by_identity
+                   for t in (a.targets if isinstance(a, ast.Assign) else [a.target]) if isinstance(t, ast.Name)}
+        for sub in ast.walk(rfn):
+            if not (isinstance(sub, ast.Subscript) and isinstance(sub.ctx, ast.Load)):
+                continue
+            tbl = alias23.get(sub.value.id) if isinstance(sub.value, ast.Name) else ((dotted(sub.value) or '').split('.', 1)[1] if (dotted(sub.value) or '').startswith('self.') and (dotted(sub.value) or '').split('.', 1)[1] in by_identity else None)
+            if tbl is None or isinstance(sub.slice, ast.Slice):
+                continue
+            par = bsp.parents.get(sub)
+            copied = (isinstance(par, ast.Attribute) and par.attr in ('copy', 'thaw', 'freeze') and isinstance(bsp.parents.get(par), ast.Call)) or (isinstance(par, ast.Call) and dotted(par.func) in ('copy.copy', 'copy.deepcopy', 'copy', 'deepcopy', 'Vec', 'FrozenVec'))
+            ctx.check('C11.L23', not copied, bsp, sub, f'BSP.{rname} hands out `{U(par)[:50]}`, a copy of an entry of self.{tbl}: the writers find entries of that table by identity (find_or_insert), so on save the copy is appended as a '
+                      'new entry instead of being found - the table grows and the references move to the duplicates', func=f'BSP.{rname}', text=f'{rname}: entry of {tbl} handed out itself')
+
+    # ---- L24: bit fields are put together with `|` --------------------------------------------------------------------------------------------
+    # `a or b` is one of its operands, not their union: where the reader splits one stored word into two fields of the record (`bool(w & 1)`,
+    # `w & ~1`) the writer has to join them bitwise.
+    ctx.rule('C11.L24', 'a packed word built from two fields of one record joins them with |, not with `or`', floor=1)
+    n24 = 0
+    for wname, wfn in bsp.methods('BSP').items():
+        if not wname.startswith(('_lmp_write', '_write_')):
+            continue
+        for c in ast.walk(wfn):
+            if isinstance(c, ast.Call) and (dotted(c.func) or '').endswith('pack'):
+                for a in c.args:
+                    for b in ast.walk(a):
+                        if isinstance(b, ast.BoolOp) and isinstance(b.op, ast.Or) and len(b.values) == 2 and all(isinstance(v, ast.Attribute) and isinstance(v.value, ast.Name) for v in b.values) \
+                                and b.values[0].value.id == b.values[1].value.id:
+                            n24 += 1
+                            ctx.check('C11.L24', False, bsp, b, f'BSP.{wname} packs `{U(b)}`: `or` yields the first field when it is truthy and drops the second, where the two fields are parts of one stored word and have to be '
+                                      'combined with `|`', func=f'BSP.{wname}', text=f'{wname}: `{U(b)[:40]}` joined bitwise')
+    ctx.check('C11.L24', True, bsp, bsp.tree, f'{n24} logical-or joins of two record fields inside pack() calls', func='BSP', text='pack arguments examined for logical or')
+
     # ---- L20: formats that come from the per-game layout table are consulted alike on both sides -----------------------------------------
     # `self.lump_layout[KEY]` is how the record width follows the BSP flavour (Chaos v25 widens indexes).  A side that takes the table entry
     # only under a further condition (`layout[K] if vers >= 12 else '<H'`) while the other side always takes it disagrees for the flavours
@@ -821,6 +869,8 @@ def run(ctx: Any, prog: Program) -> None:
 
 
 MUTANTS = [
+    {'id': 'surfedge_reader_copies_vertexes', 'file': 'bsp.py', 'find': "            Edge(verts[a], verts[b])\n", 'replace': "            Edge(verts[a].copy(), verts[b].copy())\n", 'expect': 'C11.L23'},
+    {'id': 'brushside_flags_joined_with_or', 'file': 'bsp.py', 'find': "                    side.is_bevel_plane | side._unknown_bevel_bits,", 'replace': "                    side.is_bevel_plane or side._unknown_bevel_bits,", 'expect': 'C11.L24'},
     {'id': 'visleaf_bounds_saturated', 'file': 'bsp.py', 'find': "                    int(leaf.mins.x), int(leaf.mins.y), int(leaf.mins.z),\n                    int(leaf.maxes.x), int(leaf.maxes.y), int(leaf.maxes.z),\n                    face_ind, len(leaf.faces),\n                    brush_ind, len(leaf.brushes),\n                    leaf.water_id)", 'replace': "                    min(max(int(leaf.mins.x), -0x8000), 0x7FFF), int(leaf.mins.y), int(leaf.mins.z),\n                    int(leaf.maxes.x), int(leaf.maxes.y), int(leaf.maxes.z),\n                    face_ind, len(leaf.faces),\n                    brush_ind, len(leaf.brushes),\n                    leaf.water_id)", 'expect': 'C11.L22', 'nth': 0},
     {'id': 'ent_writer_refreshes_mapversion', 'file': 'bsp.py', 'find': "        out = BytesIO()\n        for ent in itertools.chain([vmf.spawn], vmf.entities):", 'replace': "        if 'mapversion' in vmf.spawn:\n            vmf.spawn['mapversion'] = str(vmf.map_ver)\n        out = BytesIO()\n        for ent in itertools.chain([vmf.spawn], vmf.entities):", 'expect': 'C11.L21'},
     {'id': 'texdata_get_form_keyed_by_material', 'file': 'bsp.py', 'find': "            try:\n                ind = texdata_ind[tdat]\n            except KeyError:\n                ind = texdata_ind[tdat] = next_ind", 'replace': "            mat_key = tdat.mat.casefold()\n            ind = texdata_ind.get(mat_key)\n            if ind is None:\n                ind = texdata_ind[mat_key] = next_ind", 'expect': 'C11.L19'},
